@@ -177,6 +177,14 @@ readArray:
 				return nil, errors.New("corrupt input: expected integer, but no more values")
 			}
 			dst = append(dst, float64(a.tape.Tape[a.off]))
+		case TagNop:
+			// Gap left by DeleteElems/SetNull: the count is relative to the NOP entry itself.
+			skip := a.tape.Tape[a.off-1] & JSONVALUEMASK
+			if skip == 0 {
+				return nil, errors.New("corrupt input: invalid nop skip")
+			}
+			a.off += int(skip) - 1
+			continue
 		case TagArrayEnd:
 			break readArray
 		default:
@@ -235,6 +243,14 @@ readArray:
 				return nil, errors.New("unsigned integer value overflows int64")
 			}
 			dst = append(dst, int64(val))
+		case TagNop:
+			// Gap left by DeleteElems/SetNull: the count is relative to the NOP entry itself.
+			skip := a.tape.Tape[a.off-1] & JSONVALUEMASK
+			if skip == 0 {
+				return nil, errors.New("corrupt input: invalid nop skip")
+			}
+			a.off += int(skip) - 1
+			continue
 		case TagArrayEnd:
 			break readArray
 		default:
@@ -289,6 +305,14 @@ readArray:
 			}
 
 			dst = append(dst, a.tape.Tape[a.off])
+		case TagNop:
+			// Gap left by DeleteElems/SetNull: the count is relative to the NOP entry itself.
+			skip := a.tape.Tape[a.off-1] & JSONVALUEMASK
+			if skip == 0 {
+				return nil, errors.New("corrupt input: invalid nop skip")
+			}
+			a.off += int(skip) - 1
+			continue
 		case TagArrayEnd:
 			break readArray
 		default:
